@@ -184,10 +184,11 @@ func c08Nfold(m *Model, v *Verdict, rng *RNG) {
 }
 
 func c08Derive(m *Model, v *Verdict, rng *RNG) {
-	// RFC 3961 DR / DK with constants of every length 1..16
+	// RFC 3961 DR / DK with constants of every length 1..40 (shorter than, equal to and longer than a cipher block:
+	// every one of them is n-folded to the block size)
 	for _, et := range []int32{16, 17, 18} {
 		e := mustEtype(et)
-		for cl := 1; cl <= 16; cl++ {
+		for cl := 1; cl <= 40; cl++ {
 			for j := 0; j < 3; j++ {
 				key := randKey(rng, et)
 				c := rng.Bytes(cl)
